@@ -220,9 +220,15 @@ def _run(ctx, r, idx, aw, bench, w):
 
 	# tune everything first (children included), then play
 	for i in range(n):
-		if r.random() < 0.85:
+		x = r.random()
+		if x < 0.8:
 			if not (cmd(i, "RXTUNE %d" % r.choice(pool)) and cmd(i, "TXTUNE %d" % r.choice(pool))):
 				return
+		elif x < 0.9:
+			# half tuned: not ready, POWERON has to be refused until the other frequency (or hopping) is set
+			if not cmd(i, "%s %d" % (r.choice(("RXTUNE", "TXTUNE")), r.choice(pool))):
+				return
+			ctx.count("half_tuned_transceivers")
 	force_ticks = 0
 	for step in range(r.randint(20, 45)):
 		i = r.randrange(n)
@@ -232,7 +238,8 @@ def _run(ctx, r, idx, aw, bench, w):
 		elif x < 0.6:
 			ok = cmd(i, "POWEROFF")
 		elif x < 0.7:
-			ok = cmd(i, "RXTUNE %d" % r.choice(pool)) and cmd(i, "TXTUNE %d" % r.choice(pool))
+			ok = cmd(i, "RXTUNE %d" % r.choice(pool)) if r.random() < 0.85 else True
+			ok = ok and (cmd(i, "TXTUNE %d" % r.choice(pool)) if r.random() < 0.85 else True)
 		elif x < 0.8:
 			ma = " ".join("%d %d" % (r.choice(pool), r.choice(pool)) for _ in range(r.randint(1, 4)))
 			ok = cmd(i, "SETFH %d %d %s" % (r.randrange(64), r.randrange(4), ma))
